@@ -168,7 +168,9 @@ func (e *scenarioEnv) runStep(step map[string]interface{}) interface{} {
 		args = append(args, "")
 	}
 	flag := func(k string) bool { b, _ := step[k].(bool); return b }
-	opts := &config.Opts{Pretend: flag("pretend"), Force: flag("force"), Verbose: false}
+	// -v changes what is printed, never what is done or reported: the model has no such switch
+	opts := &config.Opts{Pretend: flag("pretend"), Force: flag("force"), Verbose: flag("verbose")}
+	fs.MessageWriter = ioutil.Discard
 	inuse := e.inuse(step)
 	e.kernel.syslog = nil
 	nops := 0
